@@ -58,13 +58,21 @@ fn gen_cases(rng: &mut Rng, tier: Tier) -> Vec<Value> {
                     v.capacity = v.capacity.iter().map(|_| ((total * 3 / 4) / vehicles.max(1)).max(2)).collect();
                 }
             }
-            { let mg = [1usize, 2, 3, 10, 25][i % 5]; json!({"k": "quota", "sp": sp, "max_gens": mg, "limit": limit}) }
+            // every third problem is searched by ONE named operator of the default heuristic only (hook H8; the default
+            // diversification composite stays): an operator the selection rarely picks gets its poll points enumerated too
+            let focus = match i % 6 {
+                1 | 4 => Some("infeasible_search"),
+                3 => Some("redistribute"),
+                _ => None,
+            };
+            { let mg = [1usize, 2, 3, 10, 25][i % 5]; json!({"k": "quota", "sp": sp, "max_gens": if focus.is_some() { mg.max(3) } else { mg },
+                     "limit": if focus == Some("infeasible_search") { 3 * limit } else { limit }, "focus": focus}) }
         })
         .collect()
 }
 
 /// one solver run with the quota firing at poll `fire_at`; returns (polls, generations, solution JSON)
-fn run_once(sp: &SProblem, max_gens: usize, fire_at: usize) -> Result<(usize, Option<usize>, Value), String> {
+fn run_once(sp: &SProblem, max_gens: usize, fire_at: usize, focus: Option<String>) -> Result<(usize, Option<usize>, Value), String> {
     let sp = sp.clone();
     isolated(1, move || -> Result<(usize, Option<usize>, Value), String> {
         let problem = sp.read().map_err(|c| format!("generated problem is invalid: {c:?}"))?;
@@ -76,9 +84,22 @@ fn run_once(sp: &SProblem, max_gens: usize, fire_at: usize) -> Result<(usize, Op
             logger: Arc::new(|_: &str| {}),
             is_experimental: false,
         });
-        let config = VrpConfigBuilder::new(problem.clone())
-            .set_environment(env)
-            .set_telemetry_mode(TelemetryMode::OnlyMetrics { track_population: 1000 })
+        let mut builder = VrpConfigBuilder::new(problem.clone())
+            .set_environment(env.clone())
+            .set_telemetry_mode(TelemetryMode::OnlyMetrics { track_population: 1000 });
+        if let Some(name) = focus.as_ref() {
+            use vrp_core::solver::{create_scalar_operator_probability, get_static_heuristic_from_heuristic_group, verif_default_operators};
+            let operators = verif_default_operators(problem.clone(), env.clone());
+            if let Some((op, _, _)) = operators.into_iter().find(|o| &o.1 == name) {
+                let heuristic = get_static_heuristic_from_heuristic_group(
+                    problem.clone(),
+                    env.clone(),
+                    vec![(op, create_scalar_operator_probability(1., env.random.clone()))],
+                );
+                builder = builder.set_heuristic(Box::new(heuristic));
+            }
+        }
+        let config = builder
             .prebuild()
             .map_err(|e| e.to_string())?
             .with_max_generations(Some(max_gens))
@@ -96,7 +117,8 @@ fn exec(case: &Value) -> Value {
     let sp: SProblem = serde_json::from_value(case["sp"].clone()).unwrap();
     let max_gens = case["max_gens"].as_u64().unwrap() as usize;
     let limit = case["limit"].as_u64().unwrap() as usize;
-    let (total, gens_full, _) = match run_once(&sp, max_gens, usize::MAX) {
+    let focus = case["focus"].as_str().map(|s| s.to_string());
+    let (total, gens_full, _) = match run_once(&sp, max_gens, usize::MAX, focus.clone()) {
         Ok(x) => x,
         Err(e) => return json!({"error": e}),
     };
@@ -112,7 +134,7 @@ fn exec(case: &Value) -> Value {
     };
     let runs: Vec<Value> = ks
         .iter()
-        .map(|&k| match run_once(&sp, max_gens, k) {
+        .map(|&k| match run_once(&sp, max_gens, k, focus.clone()) {
             Ok((polls, gens, sol)) => json!({"k": k, "polls": polls, "gens": gens, "solution": sol}),
             Err(e) => json!({"k": k, "error": e}),
         })
